@@ -49,6 +49,8 @@ val rev_append : 'a1 list -> 'a1 list -> 'a1 list
 
 val rev' : 'a1 list -> 'a1 list
 
+val concat : 'a1 list list -> 'a1 list
+
 val map : ('a1 -> 'a2) -> 'a1 list -> 'a2 list
 
 val flat_map : ('a1 -> 'a2 list) -> 'a1 list -> 'a2 list
@@ -367,6 +369,8 @@ val results_of : (nat * res) list -> nat -> z list
 
 val enc_slot : (z option * z) -> z list
 
+val completion : nat -> z list list -> z list
+
 val run_case : z list -> z list
 
 val entry0 : z -> z list -> z list
@@ -384,7 +388,136 @@ val judge : z list -> z list
 
 val entry : z -> z list -> z list
 
-val upd0 : n list -> nat -> n -> n list
+type lin_ev0 =
+| LPush0 of z
+| LPop0 of z
+| LEmpty
+
+type shared0 = { vals : z option list; head : nat; tail : nat; len : 
+                 z; q0 : z list; lin0 : lin_ev0 list }
+
+type pc0 =
+| Idle0
+| PushLoadTail of z
+| PushLoadNext of z * nat
+| PushCas of z * nat * nat option
+| PushAdd of nat * z
+| PushStoreTail of nat * z
+| PushYield of z
+| PopLoadHead
+| PopLoadTail of nat
+| PopLoadNext of nat
+| PopCas of nat * nat option
+| PopRead of nat * z
+| PopClear of nat * z * z option
+| PopDec of nat * z * z option
+| LenLoad
+
+type op0 =
+| OpPush0 of z
+| OpPop0
+| OpLen
+
+type res0 =
+| RPush0
+| RPop0 of z option * z
+| RPopEmpty
+| RPopBusy
+| RLen of z * z
+
+val next_of : shared0 -> nat -> nat option
+
+val upd0 : 'a1 list -> nat -> 'a1 -> 'a1 list
+
+val tstep0 : shared0 -> pc0 -> op0 -> (shared0 * pc0) * res0 option
+
+type config0 = { sh0 : shared0; ths0 : pc0 list; hist0 : (nat * res0) list }
+
+val step0 : config0 -> (nat * op0) -> config0
+
+val evLoadI64 : z
+
+val evAddI64 : z
+
+val evLoadPtr : z
+
+val evStorePtr : z
+
+val evCasPtr : z
+
+val evGosched : z
+
+val locLen : z
+
+val locHead0 : z
+
+val locTail0 : z
+
+val loc_next : nat -> z
+
+val ptr : nat option -> z
+
+val observe0 : shared0 -> pc0 -> z list
+
+val dec_op0 : z -> op0
+
+val updl0 : 'a1 list -> nat -> 'a1 -> 'a1 list
+
+val go0 : config0 -> z list list -> z list -> z list -> config0 * z list
+
+val pre_val : nat -> z
+
+val seq_state0 : nat -> nat -> config0
+
+val enc_res0 : res0 -> z list
+
+val results_of0 : (nat * res0) list -> nat -> z list
+
+val stored : shared0 -> z list
+
+val completion0 : nat -> z list list -> z list
+
+val run_case0 : z list -> z list
+
+type oprec0 = { o_kind : z; o_val0 : z; o_lp0 : bool; o_got0 : z;
+                o_excuse0 : bool; o_lenmin : z }
+
+type tstate0 = { t_next0 : nat; t_cur0 : oprec0 option;
+                 t_done0 : oprec0 list; t_lasthead : z }
+
+type jstate0 = { j_q0 : z list; j_ths0 : tstate0 list; j_ok0 : bool }
+
+val bad : jstate0 -> jstate0
+
+val in_flight0 : tstate0 -> bool
+
+val with_cur : tstate0 -> oprec0 option -> tstate0
+
+val excuse : oprec0 -> oprec0
+
+val excuse_all0 : tstate0 -> tstate0
+
+val look0 : z list -> tstate0 -> tstate0
+
+val finish0 : tstate0 -> tstate0
+
+val j_start0 : z list list -> jstate0 -> nat -> jstate0
+
+val set_rec : jstate0 -> nat -> tstate0 -> oprec0 -> z list -> bool -> jstate0
+
+val j_event : jstate0 -> nat -> z -> z -> z -> z -> z -> jstate0
+
+val judge_steps0 : nat -> z list list -> jstate0 -> z list -> jstate0 * z list
+
+val check_results0 : oprec0 list -> z list -> bool
+
+val check_threads0 : tstate0 list -> z list -> bool * z list
+
+val judge0 : z list -> z list
+
+val entry1 : z -> z list -> z list
+
+val upd1 : n list -> nat -> n -> n list
 
 val widx : n -> nat
 
@@ -420,7 +553,7 @@ val bits64 : n list
 
 val popcount : n -> nat
 
-val len : n list -> nat
+val len0 : n list -> nat
 
 val mlist : n -> n list -> n list
 
@@ -445,7 +578,7 @@ type kind =
 | KBitmap
 | KDsz
 
-type op0 =
+type op1 =
 | OAdd of bool * n
 | ORemove of bool * n
 | OContains of bool * n
@@ -466,9 +599,9 @@ val upd2 : bool -> ('a1 * 'a1) -> 'a1 -> 'a1 * 'a1
 
 val len_of : kind -> bits -> z
 
-val step0 : kind -> (bits * bits) -> op0 -> (bits * bits) * z list
+val step1 : kind -> (bits * bits) -> op1 -> (bits * bits) * z list
 
-val run : kind -> (bits * bits) -> op0 list -> z list
+val run : kind -> (bits * bits) -> op1 list -> z list
 
 val empty : bits
 
@@ -488,18 +621,18 @@ type sset = { elems : n list; scap : n }
 
 val need : n -> n
 
-val s_step : kind -> (sset * sset) -> op0 -> (sset * sset) * z list
+val s_step : kind -> (sset * sset) -> op1 -> (sset * sset) * z list
 
-val s_run : kind -> (sset * sset) -> op0 list -> z list
+val s_run : kind -> (sset * sset) -> op1 list -> z list
 
 val s_empty : sset
 
 val dec_kind : z -> kind
 
-val dec_op0 : z -> z -> z -> op0 option
+val dec_op1 : z -> z -> z -> op1 option
 
-val dec_ops : nat -> z list -> op0 list option
+val dec_ops : nat -> z list -> op1 list option
 
-val entry1 : z -> z list -> z list
+val entry2 : z -> z list -> z list
 
 val dispatch : z -> z -> z list -> z list
